@@ -124,6 +124,14 @@ impl OpCode {
     }
 }
 
+#[cfg(feature = "verif")]
+impl OpCode {
+    /// Operand widths of this opcode, for the exported opcode table
+    pub(crate) fn verif_operands(&self) -> Vec<usize> {
+        self.operands().to_vec()
+    }
+}
+
 pub struct Bytecode {
     pub constants: Vec<Object>,
     pub instructions: Vec<u8>,
